@@ -430,6 +430,7 @@ type FuncSpec struct {
 	Preserves []*PreserveSpec
 	CheckAts  []*CheckAt
 	AssumesPre []string // callees whose preconditions are assumed (not checked) at this function's call sites
+	NoMapOrder   *NoMapOrder
 	PreciseElems bool // model copy/append of slices whose elements contain nested structs/arrays element-wise (default: havoc)
 	PreOnly  bool   // only the preconditions are used at call sites; the body is still opened/havocked as if there were no contract
 	Witness  []*Clause // named entry-state terms whose counterexample values the replay generators need
@@ -462,6 +463,11 @@ type PreserveSpec struct {
 
 // CheckAt: "check-at [props] label: call "callee[#k]" : cond" or "check-at label: send : cond" — cond
 // must hold in the state right before every such instruction of this function.
+type NoMapOrder struct {
+	Label string
+	Props []string
+}
+
 type CheckAt struct {
 	Label  string
 	Props  []string
@@ -937,6 +943,26 @@ func (db *SpecDB) parseSpecText(text, file, pkgPath string) error {
 				return fail("precise-elements outside func")
 			}
 			cur.PreciseElems = true
+		case "no-map-order":
+			// no-map-order [props] label: the function (and the closures it defines) never walks a Go
+			// map with range - nothing it computes can depend on the order in which a map is iterated
+			if cur == nil {
+				return fail("no-map-order outside func")
+			}
+			r := strings.TrimSpace(rest)
+			nm := &NoMapOrder{Label: "no-map-iteration"}
+			if strings.HasPrefix(r, "[") {
+				if j := strings.Index(r, "]"); j > 0 {
+					for _, p := range strings.Split(r[1:j], ",") {
+						nm.Props = append(nm.Props, strings.TrimSpace(p))
+					}
+					r = strings.TrimSpace(r[j+1:])
+				}
+			}
+			if r != "" {
+				nm.Label = strings.TrimSuffix(r, ":")
+			}
+			cur.NoMapOrder = nm
 		case "pre-only":
 			if cur == nil {
 				return fail("pre-only outside func")
